@@ -37,6 +37,7 @@ type Verifier struct {
 	defFuns     map[string]string
 	oldRefs     map[Term]bool
 	storeInfo   map[Term]storeRec
+	nonNilGlobals map[Term]bool
 	entryReads  map[Term]bool
 
 	derived map[string]int // embedded struct field -> index (global, stable within a run)
@@ -240,6 +241,7 @@ func (v *Verifier) verifyFunction(key string) (res *FuncResult) {
 	v.defFuns = map[string]string{}
 	v.oldRefs = map[Term]bool{}
 	v.storeInfo = map[Term]storeRec{}
+	v.nonNilGlobals = map[Term]bool{}
 	v.entryReads = map[Term]bool{}
 	baseCounter = 0
 	defer func() {
